@@ -91,16 +91,29 @@ Proof.
   intros Hv Hd Hb. pose proof (year_linear y m d Hv) as H. cbv zeta in H. rewrite Hd in H. lia.
 Qed.
 
+(* era and day of era computed without forming days + 719468 are those of Hinnant's z = days + 719468 *)
+Lemma shifted_era_doe_spec day :
+  let z := day + 719468 in let era := Z.quot (if 0 <=? z then z else z - 146096) 146097 in
+  shifted_era_doe day = (era, z - era * 146097).
+Proof.
+  cbv zeta. unfold shifted_era_doe.
+  destruct (Z.ltb_spec (Z.rem day 146097) 0); destruct (Z.leb_spec 0 (day + 719468)); f_equal; lia.
+Qed.
+
+Lemma shifted_civil day era doe : shifted_era_doe day = (era, doe) -> civil_of_era_doe era doe = civil_from_days day.
+Proof.
+  intros H. pose proof (shifted_era_doe_spec day) as E. cbv zeta in E. rewrite E in H. injection H as <- <-. reflexivity.
+Qed.
+
 (* To(time_point) -> string, evaluated: the date of the floor day, the time of day, the fraction *)
 Lemma tp_print_eval P R t : c14_rep P R -> fits R t = true ->
-  t / tpd P + 719468 <= 9223372036854775807 ->
   let day := t / tpd P in let tod := t mod tpd P in let sec := sec_of P tod in
   exists y m d, civil_from_days day = (y, m, d) /\ valid_date (y, m, d) /\ days_of_civil (y, m, d) = day /\
   tp_print P R t =
   print_iso_utc y m d (sec / 3600) (sec mod 3600 / 60) (sec mod 60)
     (if sub_second P then Some (I64, pden P, tod mod pden P) else None).
 Proof.
-  intros HR Ht Hz. cbv zeta.
+  intros HR Ht. cbv zeta.
   pose proof (floor_days P R t HR Ht) as F1.
   destruct (wide_parts P R t HR Ht) as (W0 & W1 & W2).
   set (day := t / tpd P) in *. set (tod := t mod tpd P) in *. set (sec := sec_of P tod).
@@ -132,10 +145,7 @@ Proof.
   rewrite Etp, bind_ok.
   fold (pty P I64).
   rewrite (floor_seconds P tod Htod), bind_ok. fold sec.
-  replace (uac R I64) with I64 by (destruct HR as [-> | ->]; reflexivity).
-  rewrite (cast_fits I64 day) by fits_side. rewrite (cast_fits I64 719468) by fits_side.
-  rewrite arith_fits by fits_side. rewrite bind_ok.
-  change (civil_from_z (day + 719468)) with (civil_from_days day). rewrite Ec.
+  destruct (shifted_era_doe day) as [era doe] eqn:Esh. rewrite (shifted_civil day era doe Esh), Ec.
   rewrite (cast_fits I64 y) by fits_side. rewrite (cast_fits I32 m) by fits_side. rewrite (cast_fits I32 d) by fits_side.
   rewrite !Z.quot_div_nonneg, !Z.rem_mod_nonneg by lia.
   rewrite (cast_fits I32 (sec / 3600)) by fits_side.
@@ -148,16 +158,7 @@ Qed.
 
 (* ------------------------------------------------------------------ T_C14_print *)
 
-(* the one input class on which printing still goes wrong (K35): the last 719468 values of
-   time_point<days, int64>, where days + 719468 overflows *)
-Definition rt_defect (P : prec) (R : ity) (t : Z) : bool := 9223372036854775807 - 719468 <? t / tpd P.
-Definition print_defect (P : prec) (R : ity) (t : Z) : bool := rt_defect P R t.
-
-Lemma rt_defect_days P R t : c14_rep P R -> fits R t = true -> rt_defect P R t = true -> P = Pd /\ R = I64.
-Proof.
-  intros HR Ht Hd. unfold rt_defect in Hd. apply fits_iff in Ht.
-  destruct P; rep_cases HR; unfold tmin, tmax, half in Ht; cbn [is_signed] in Ht; unfold tpd in Hd; try lia; auto.
-Qed.
+(* (K35, the last 719468 values of time_point<days, int64>, was repaired in /repo: no input class is left) *)
 
 Definition frac_cnt (P : prec) (tod : Z) : Z := if sub_second P then tod mod pden P else 0.
 
@@ -209,15 +210,14 @@ Definition frac_opt (P : prec) (tod : Z) : option (nat * Z) :=
   if sub_second P then Some (frac_digits P, tod mod pden P) else None.
 
 (* the text produced *)
-Lemma tp_print_text P R t : c14_rep P R -> fits R t = true -> rt_defect P R t = false ->
+Lemma tp_print_text P R t : c14_rep P R -> fits R t = true ->
   let tod := t mod tpd P in let sec := sec_of P tod in
   exists y m d, civil_from_days (t / tpd P) = (y, m, d) /\ valid_date (y, m, d) /\
     days_of_civil (y, m, d) = t / tpd P /\ - p10 (year_k P) < y < p10 (year_k P) /\
     tp_print P R t = Ok (printed_text y m d (sec / 3600) (sec mod 3600 / 60) (sec mod 60) (frac_opt P tod)).
 Proof.
-  intros HR Ht Hdef. cbv zeta.
-  assert (Hz : t / tpd P + 719468 <= 9223372036854775807) by (unfold rt_defect in Hdef; lia).
-  destruct (tp_print_eval P R t HR Ht Hz) as (y & m & d & Ec & Hv & Hd & E).
+  intros HR Ht. cbv zeta.
+  destruct (tp_print_eval P R t HR Ht) as (y & m & d & Ec & Hv & Hd & E).
   pose proof (year_width P R t y m d HR Ht Hv Hd) as Hyk.
   exists y, m, d. split; [exact Ec|]. split; [exact Hv|]. split; [exact Hd|]. split; [exact Hyk|].
   rewrite E.
@@ -243,11 +243,11 @@ Proof.
     rewrite (print_iso_utc_ok y m d (sec / 3600) (sec mod 3600 / 60) (sec mod 60) None); try assumption; try lia. reflexivity.
 Qed.
 
-Theorem tp_print_correct P R t : c14_rep P R -> fits R t = true -> print_defect P R t = false ->
+Theorem tp_print_correct P R t : c14_rep P R -> fits R t = true ->
   tp_print P R t = Ok (iso_text P (spec_datetime P t)).
 Proof.
-  intros HR Ht Hdef.
-  destruct (tp_print_text P R t HR Ht Hdef) as (y & m & d & Ec & Hv & Hd & Hyk & E).
+  intros HR Ht.
+  destruct (tp_print_text P R t HR Ht) as (y & m & d & Ec & Hv & Hd & Hyk & E).
   rewrite E. f_equal. unfold spec_datetime. cbv zeta. rewrite Ec.
   unfold printed_text, iso_text, frac_opt, frac_text, frac_cnt. cbn [dt_y dt_mo dt_d dt_h dt_mi dt_s dt_ns].
   destruct (sub_second P) eqn:Es.
